@@ -109,9 +109,13 @@ CHECKS = [
      "step: C08_negate_threshold_excluded; the driver's float64 nextafter satisfies the oracle hypothesis), C08_affine_cm, "
      "C08_affine_threshold (a>0: same matrices at a*t+b, every threshold mapped by t -> a*t+b). Tied to /repo by running the "
      "original, swap(), the negated and an affine image through the real API, tying each to the model (op cm) and evaluating "
-     "the relations on the observed outputs; EER and AUC equivariance are evaluated as relations between two real runs.",
-     BASE_NOTE + "EER/AUC equivariance is evaluated on every case, not proved as such (C07 proves AUC = Mann-Whitney for each "
-     "object); EER relations are claimed for tie-free scores; float thresholds compared up to a few ulp.",
+     "the relations on the observed outputs. AUC invariance under increasing affine maps and under negation is proved for the "
+     "reference semantics on ALL inputs (mwi_mw_affine / mwi_mw_negate, mwi_step_affine / mwi_step_negate) and for the "
+     "code-shaped model through C07 (C08_affine_auc*, C08_negate_auc*); EER equivariance under increasing affine maps is proved "
+     "(C06_affine: mapped threshold, same rate, all inputs). EER under negation is evaluated as a relation between two real runs.",
+     BASE_NOTE + "EER equivariance under NEGATION is evaluated on every case, not proved; the AUC theorems for the code-shaped "
+     "model carry the C07 hypotheses (sorted arrays, a scored negative, lawful neighbourly nextafter oracle); EER relations are "
+     "claimed for tie-free scores; float thresholds compared up to a few ulp.",
      "Lean 4 proof about a hand-written model + metamorphic correspondence check", "DESIGN.md §5 C08"),
  chk("C09",
      "Lean theorems: C09_cm (for ALL score lists, counts k,m, existing easy counts, 4 configurations and every threshold at "
@@ -121,10 +125,13 @@ CHECKS = [
      "materialised object's threshold lies strictly inside the range of the relevant scored samples, the easy-sample object "
      "returns the same threshold: index targets differ by exactly the number of materialised samples below, via rescale_spec); "
      "C09_threshold_boundary (at the first/last scored sample the easy-sample object returns the sentinel one ulp outside: why "
-     "thresholds are compared up to a few ulp). Tied to /repo by running both constructions through the real API (both tied to "
+     "thresholds are compared up to a few ulp); C09_auc_full / C09_auc_partial (same full and partial AUC as the materialised "
+     "object). Tied to /repo by running both constructions through the real API (both tied to "
      "the model with op cm, relation evaluated on the observed matrices, thresholds and AUC compared between the two runs).",
-     BASE_NOTE + "The full/partial AUC clause is evaluated on every case as a relation between two real runs (C07 proves the "
-     "AUC of each object equals its Mann-Whitney statistic, the equality of the two statistics is not stated as a theorem).",
+     BASE_NOTE + "AUC clause: proved under STRICT beyond-ness of the materialised values (mwi_mw_easy, mwi_step_easy for all "
+     "inputs; C09_auc_full / C09_auc_partial for the code-shaped model under the C07 hypotheses; partial AUC without cross-class "
+     "ties) - with a materialised value EQUAL to a scored sample the tie term differs, which is outside 'beyond'. The run also "
+     "compares the two real AUC values on every case.",
      "Lean 4 proof about a hand-written model + metamorphic correspondence check", "DESIGN.md §5 C09"),
  chk("C15",
      "Lean theorems about the model of roc / _find_support_thresholds (nb_extra_points=None), for ALL sorted score lists, easy "
@@ -154,7 +161,8 @@ CHECKS = [
      "the spec is evaluated with eps = 1e-9. Tied to /repo by comparing (t, e) with the model on tie-free data and evaluating "
      "rangeOK / crossingOK / zeroOK on the implementation's own matrix at its returned threshold on every case.",
      BASE_NOTE + "PARTIAL: the data-dependent bound on delta that connects the crossing bracket to the FNR sandwich is not "
-     "formalised; the FNR side and the equivariance clauses are evaluated on every sampled case. With ties the EER value is "
+     "formalised; the FNR side and the negation equivariance are evaluated on every sampled case (affine equivariance is "
+     "proved: C06_affine). With ties the EER value is "
      "not compared with the exact model. np.isclose by its formula; bisection with fuel 64.",
      "Lean 4 proof (partial) about a hand-written model + differential correspondence check", "DESIGN.md §5 C06"),
  chk("C20",
